@@ -2,7 +2,10 @@
 """Regenerate MANIFEST.json from props.json (one place to edit)."""
 import json, os, subprocess
 V = os.path.dirname(os.path.dirname(os.path.abspath(__file__)))
-props = json.load(open(os.path.join(V, "props.json")))
+props = {}
+for fn in sorted(os.listdir(os.path.join(V, "props.d"))):
+    if fn.endswith(".json"):
+        props[fn[:-5]] = json.load(open(os.path.join(V, "props.d", fn)))
 ids = [json.loads(l)["id"] for l in open(os.path.join(V, "properties.jsonl")) if l.strip()]
 hooks_commits = []
 try:
